@@ -37,7 +37,7 @@ package forward
 
 //@ func (m *Manager) ReloadConf
 //@   property C39
-//@   requires forall(k, 0, len(m.destHandlers), m.destHandlers[k] != nil)
+//@   domain forall(k, 0, len(m.destHandlers), m.destHandlers[k] != nil)
 //@   def prev() []*DestHandler = m.destHandlers
 //@   def pv(k int) *DestHandler = m.destHandlers[k]
 //@   def changed(k int) bool = k >= len(forward) || m.destHandlers[k].Conf != forward[k]
